@@ -1380,6 +1380,48 @@ def quad_records(ctx):
             theta = THETAS[(2 * k + ext) % len(THETAS)]
             add('integrate1d', 'Cache1D.integrate', {'theta': rat(theta), 'ext': ext, 'c1': enc_c1(c), 'pdf1': tab1(name, p, c.neg_gammas)},
                 obs(lambda: c.integrate(pv, None, getattr(PDFs, name), theta, None, exterior_int=ext)), cls=name + '/fixed')
+    # numeric corners of the density parameters (own RNG): very large shape at fixed mean (sharply peaked gamma DFE),
+    # very small shape, very large / small scale, lognormal with tiny / huge sigma, beta with large parameters.  The
+    # reference node values and tail masses are evaluated in log space (lgamma) / with incomplete gamma and beta
+    # functions; the result must be finite and equal theta times the quadrature (existing Quadrature clause).
+    rngc = random.Random(ctx.seed + 1713)
+    CORNERS1 = [('gamma', [150.0, 9.0 / 150.0]), ('gamma', [180.0, 0.05]), ('gamma', [250.0, 9.0 / 250.0]), ('gamma', [400.0, 9.0 / 400.0]),
+                ('gamma', [500.0, 0.02]), ('gamma', [0.01, 50.0]), ('gamma', [1.0, 1.0e4]), ('gamma', [3.0, 0.02]),
+                ('exponential', [1.0e4]), ('exponential', [0.02]), ('lognormal', [math.log(5.0), 0.02]), ('lognormal', [1.0, 5.0]),
+                ('beta', [200.0, 300.0]), ('beta', [40.0, 2.0]), ('beta', [1.0, 500.0])]
+    if not ctx.quick:
+        CORNERS1 += [('gamma', [a, 9.0 / a]) for a in (100.0, 120.0, 171.0, 172.0, 300.0, 450.0)] + [('gamma', [0.001, 5.0]), ('lognormal', [0.0, 0.005])]
+    for k, (name, p) in enumerate(CORNERS1):
+        lo, hi = (0.01, 2.0) if name == 'beta' else (0.1, 100.0)
+        blind = k % 3 == 0
+        c = small_cache1(10 if k % 2 else 16, lo, hi, blind=blind, extra=(2.5,))
+        theta = THETAS[k % len(THETAS)]
+        ext = k % 5 != 4
+        add('integrate1d', 'Cache1D.integrate', {'theta': rat(theta), 'ext': ext, 'c1': enc_c1(c), 'pdf1': tab1(name, p, c.neg_gammas)},
+            obs(lambda: c.integrate(p, None, getattr(PDFs, name), theta, None, exterior_int=ext)), cls=name + '/corner%d' % k)
+    # the same corners for the compiled bivariate densities (against the log-space reference) and for Cache2D.integrate
+    XC, YC = [0.05, 4.0, 8.0, 9.0, 10.0, 60.0], [0.5, 9.0, 11.0]
+    PC = [('biv_ind_gamma', [a, 9.0 / a]) for a in (100.0, 150.0, 180.0, 250.0, 400.0)] + \
+         [('biv_ind_gamma', [300.0, 0.01, 0.03, 40.0]), ('biv_ind_gamma', [0.01, 50.0]), ('biv_ind_gamma', [1.0, 1.0e4]), ('biv_ind_gamma', [3.0, 0.02]),
+          ('biv_lognormal', [math.log(9.0), 0.02, 0.5]), ('biv_lognormal', [1.0, 5.0, -0.5]), ('biv_lognormal', [2.0, 2.2, 0.01, 3.0, 0.9])]
+    for k, (name, p) in enumerate(PC):
+        reff = ref_biv_ind_gamma if name == 'biv_ind_gamma' else ref_biv_lognormal
+        pyf = PDFs.biv_ind_gamma_py if name == 'biv_ind_gamma' else PDFs.biv_lognormal_py
+        try:
+            import warnings
+            with warnings.catch_warnings():
+                warnings.simplefilter('ignore')
+                cv = np.asarray(getattr(PDFs, name)(np.array(XC), np.array(YC), p), dtype=float).ravel()
+                pyv = np.asarray(pyf(np.array(XC), np.array(YC), p), dtype=float).ravel()
+            out = {'c': rats(cv), 'py': rats(pyv)}
+        except Exception as e:
+            out = {'raised': type(e).__name__, 'msg': str(e)[:120]}
+        add('pdf2d', 'PDFs.' + name, {'name': name, 'x': rats(XC), 'y': rats(YC), 'params': rats(p), 'layout': 'corner',
+                                       'ref': rats([reff(p, x, y) for x in XC for y in YC])}, out, cls='corner%d' % k)
+    for k, (name, p) in enumerate([('biv_ind_gamma', [180.0, 0.05]), ('biv_ind_gamma', [400.0, 9.0 / 400.0, 0.0]), ('biv_lognormal', [math.log(9.0), 0.05, 0.5])]):
+        c = small_cache2(6, 0.1, 100.0, blind=(k == 0), extra=(2.5,))
+        add('integrate2d', 'Cache2D.integrate', {'theta': rat(2.5), 'ext': True, 'c2': enc_c2(c), 'pdf2': tab2(name, p, c.neg_gammas)},
+            obs(lambda: c.integrate(p, None, getattr(PDFs, name), 2.5, None)), cls=name + '/corner%d' % k)
     # the regime of real analyses: the default gamma_bounds (1e-4, 2000), shapes with a singular density at 0
     # (gamma / beta shape < 1), heavy lethal tails
     for k, (name, p, lo, hi, n) in enumerate([('gamma', [0.2, 10.0], 0.125, 4.0, 5), ('gamma', [0.2, 1000.0], 1e-4, 2000.0, 8),
